@@ -56,8 +56,8 @@ CHECKS['C06'] = dict(
     technique='MIR symbolic execution to z3 (ideal-AEAD ghost log of non-credentialed ciphertexts; accept implies credential)', design='DESIGN.md section 2, C06')
 
 CHECKS['C01'] = dict(
-    text='Codec composition, the only layer that transforms bytes: the REAL client encoder (Shadowsocks TCP, AEAD and 2022 ciphers) is executed for a script of application writes of arbitrary content towards an arbitrary target (IPv4, IPv6 or domain), and the buffer it produced - with the key identities, nonces and framing it really used recorded in the ideal-AEAD log - is read by the REAL server decoder (server PayloadCodec) through the FramedRead loop model in 1 or 2 segments with a symbolic cut: the first item is the connect item naming exactly the requested address and the concatenation of everything released equals the concatenation of everything written; then the REAL server encoder of that very session (its request-salt echo, its own salt) writes two answers and the REAL client decoder (the codec object that sent the request) releases exactly those bytes. Counterexamples of the request leg are replayed natively with the real ciphers end to end (real client codec -> real FramedRead -> real server codec).',
-    note='Bounds: write sizes from a grid of concrete values (quick (1,64) (37,5); thorough adds empty first writes, 65494/65495/70000-byte writes crossing the chunk limit, three-write scripts); contents, addresses, ports, salts, cut points symbolic. Write sizes of every value are covered on the encoder side by C03. VMess and Trojan compositions, the two forward pumps, try_join!, EOF propagation, transports and sockets are outside: a change confined to relay_tcp/relay_bidirectional is not detected.',
+    text='Codec composition, the only layer that transforms bytes: the REAL client encoder (Shadowsocks TCP, AEAD and 2022 ciphers) is executed for a script of application writes of arbitrary content towards an arbitrary target (IPv4, IPv6 or domain), and the buffer it produced - with the key identities, nonces and framing it really used recorded in the ideal-AEAD log - is read by the REAL server decoder (server PayloadCodec) through the FramedRead loop model in 1 or 2 segments with a symbolic cut: the first item is the connect item naming exactly the requested address and the concatenation of everything released equals the concatenation of everything written; then the REAL server encoder of that very session (its request-salt echo, its own salt) writes two answers and the REAL client decoder (the codec object that sent the request) releases exactly those bytes. The Trojan pair (client tcp::ClientCodec encoder holding the hex of the digest the server stores -> server ServerCodec) is composed the same way. Counterexamples of the Shadowsocks request leg are replayed natively with the real ciphers end to end (real client codec -> real FramedRead -> real server codec).',
+    note='Bounds: write sizes from a grid of concrete values (quick (1,64) (37,5); thorough adds empty first writes, 65494/65495/70000-byte writes crossing the chunk limit, three-write scripts); contents, addresses, ports, salts, cut points symbolic. Write sizes of every value are covered on the encoder side by C03. the VMess composition, the two forward pumps, try_join!, EOF propagation, transports and sockets are outside: a change confined to relay_tcp/relay_bidirectional is not detected.',
     technique='MIR symbolic execution to z3 (real encoder output fed to the real decoder under the ideal-AEAD log)', design='DESIGN.md section 2, C01 and section 7')
 
 CHECKS['C03'] = dict(
